@@ -79,7 +79,11 @@ def run_one(case, r, seed, variant="main"):
     role, untrusted, trusted, gpg = concretise(case, r, seed)
     snap = copy.deepcopy((untrusted, trusted))
     out, exc, printed = lib.call(lib.cct("authentication").verify_delegation, role, untrusted, trusted, gpg=gpg)
-    return {"variant": variant, "observed": out, "exc": exc, "allowed": case["allowed"],
+    try:
+        mutated = twin_canon(untrusted) != twin_canon(snap[0]) or twin_canon(trusted) != twin_canon(snap[1])
+    except TypeError:
+        mutated = repr(untrusted) != repr(snap[0]) or repr(trusted) != repr(snap[1])
+    return {"variant": variant, "observed": out, "exc": exc, "allowed": case["allowed"], "mutated": mutated,
             "concrete": {"role": role if isinstance(role, (str, int, float, type(None), list)) else repr(role),
                          "untrusted": snap[0], "trusted": snap[1],
                          "gpg": gpg if isinstance(gpg, (bool, str, int, type(None), list)) else repr(gpg)},
@@ -109,7 +113,7 @@ def _work(args):
         for o in obs:
             res["n"] += 1
             res["accepts"] += o["observed"] == "accept"
-            if lib.family(o["observed"]) not in o["allowed"]:
+            if lib.family(o["observed"]) not in o["allowed"] or o.get("mutated"):
                 res["bad"].append(o)
         trivial = all(v[0] == "absent" for v in case["e"]) and case["alt"][0] == "absent" and case["junk"][0] == "absent"
         res["hashes"].append((hashlib.sha256(line.encode()).hexdigest()[:16], not trivial))
@@ -124,7 +128,7 @@ def replay(run, tlc_result, opts=None, procs=16):
     lib.cct("authentication")
     accepts = 0
     with mp.get_context("fork").Pool(procs) as pool:
-        it = ((b, run.seed, opts) for b in ve.batches(tlc_result.case_file))
+        it = ((b, run.seed, opts) for b in ve.batches(tlc_result.case_file, every=opts.get("every", 1)))
         for res in pool.imap_unordered(_work, it):
             run.evaluations += res["n"]
             accepts += res["accepts"]
